@@ -1,6 +1,8 @@
 -- GENERATED from /repo by tools (never hand-edited); regenerated on every check run.
 import ScenicModel.Model.RoadLookup
+import ScenicModel.Model.RoadDirection
 import ScenicModel.Model.RoadCache
+import ScenicModel.Model.RoadAdjacency
 namespace Scenic.Gen.Roads
 open Scenic.Roads Scenic.RoadCache
 
@@ -31,5 +33,30 @@ def cacheCfg : Cfg :=
 
 /-- separators of `deterministicHash` (serialization.py) -/
 def hashCfg : HashCfg := { sepKey := [0, 75], sepVal := [0, 86], placeholder := [0] }
+
+/-- the `…At` methods of network elements: class, list searched, second stage -/
+def elemLookups : List (String × ElemLookup) := [
+  ("Road.sectionAt", { owner := .road, first := .sections }),
+  ("Road.laneAt", { owner := .road, first := .lanes }),
+  ("Road.laneGroupAt", { owner := .road, first := .groups }),
+  ("LaneGroup.laneAt", { owner := .laneGroup, first := .lanes }),
+  ("Lane.sectionAt", { owner := .lane, first := .sections }),
+  ("RoadSection.laneAt", { owner := .roadSection, first := .lanes }),
+  ("Road.laneSectionAt", { owner := .road, first := .lanes, child := some .sections })
+]
+
+/-- `Road._defaultHeadingAt` -> `laneGroupAt`, `LaneGroup._defaultHeadingAt` -> `laneAt`: the lists through which the
+heading of a road descends to a lane (every method involved has the reference shape) -/
+def headingChain : List (Kind × Field) := [(.road, .groups), (.laneGroup, .lanes)]
+
+/-- the front of `Network.fromFile`: keys of `handlers` in order, the errors for "nothing found" / "unknown extension" -/
+def pathCfg : PathCfg :=
+  { handlerOrder := [.map, .pickled], notFoundErr := .fileNotFound, unknownErr := .valueError }
+
+/-- xodr_parser.py `Road.toScenicRoad`: the `leftID` / `rightID` chains and the faster / slower assignment -/
+def adjCfg : Scenic.RoadAdj.Cfg :=
+  { left := [(.lt (-1), .add 1), (.eq (-1), .const 1), (.eq 1, .const (-1)), (.otherwise, .add (-1))],
+    right := [(.lt 0, .add (-1)), (.otherwise, .add 1)],
+    fasterIsLeftOnRight := true, dropOpposite := true }
 
 end Scenic.Gen.Roads
